@@ -60,6 +60,10 @@ def run(trace, render=None):
             if ev['e'] == 'hit':
                 gdb.thread_num = ev['thread']
                 cid, msg = m.parse.message(printer.line({'tag': '', 't': ev['t'], 'm': ev['m']}, **render))
+                if msg.sent:
+                    # as extract.sent_message() delivers it: the sender of an outgoing closure is known by its id only
+                    msg.obj = m.wl.UnresolvedObject(msg.obj.id, None)
+                    ev['m'] = dict(ev['m'], ttype='')
                 # through the breakpoint object GDB would call: its stop() decides whether the program halts
                 nhit[0] += 1
                 bp = bps['serialize_closure'] if msg.sent else bps[['wl_closure_invoke', 'wl_closure_dispatch'][nhit[0] % 2]]
